@@ -363,6 +363,7 @@ func main() {
 	witness := flag.String("witness", "", "evaluate exactly the case in this JSON file")
 	known := flag.Bool("known", false, "allow the generator to produce known-defect shapes")
 	workers := flag.Int("workers", 16, "goroutines")
+	modelN := flag.Int("model-n", 1500, "number of attribute-free documents (and attribute values) for the Coq model correspondence")
 	dump := flag.Int("dump", -1, "debug: print the generated input of this case index to stderr and exit")
 	flag.Parse()
 	debug.SetGCPercent(400) // the oracle is allocation-bound; trade memory for wall time
@@ -532,6 +533,7 @@ func main() {
 	res.DistinctNontrivial = len(distinct)
 	sort.SliceStable(res.Violations, func(i, j int) bool { return res.Violations[i].Signature < res.Violations[j].Signature })
 	res.Extra = map[string]interface{}{"documents": *n, "known_shapes_allowed": *known, "workers": *workers}
+	runModelCases(*seed, *modelN, *out, res.Extra)
 	if err := res.Write(filepath.Join(*out, "result.json")); err != nil {
 		fmt.Fprintln(os.Stderr, "htmloracle:", err)
 		os.Exit(2)
